@@ -146,6 +146,7 @@ def build_and_audit(prop_modules):
 def build_harness():
     env = dict(os.environ)
     env["CARGO_NET_OFFLINE"] = "true"
-    p = subprocess.run(["cargo", "build", "--offline"], cwd=os.path.join(VERIF, "harness"), env=env,
+    hdir = os.environ.get("LP_HARNESS_DIR", os.path.join(VERIF, "harness"))
+    p = subprocess.run(["cargo", "build", "--offline"], cwd=hdir, env=env,
                        stdout=subprocess.PIPE, stderr=subprocess.STDOUT, text=True, timeout=3000)
     return p.returncode, p.stdout[-4000:]
